@@ -1,6 +1,735 @@
-//! C08 — stub (not built yet).
+//! C08 — zone answers follow RFC 1034 section 4.3.2 / RFC 4592 and depend
+//! only on the zone's current content.
+//!
+//! Sub-checks
+//! * `direct`: a generated zone content is loaded through `ZoneBuilder` and
+//!   through the zone-file path; every query of a query set aimed at the
+//!   lookup branches is compared with the independent reference resolver
+//!   (`resolver.rs`), and the two zones with each other.
+//! * `restricted`: a history (initial content, then batches of changes
+//!   through the write interface / `ZoneUpdater`, aborted batches in
+//!   between) generated so that it stays away from the known defect shapes;
+//!   the resulting zone must answer exactly like a zone built directly from
+//!   the final content (and like the reference). Any mismatch is a violation.
+//! * `unrestricted`: any history. A mismatch is attributed to a known
+//!   finding only if the history left a structurally defective node
+//!   (bookkeeping model `plan::Sim`) on the lookup path of the query; the
+//!   signature names that cause. Anything else is reported.
+//! * `rfc4592`: the RFC 4592 section 2.2.1 example zone with the answers the
+//!   RFC text lists, hard-coded (checks library and reference resolver
+//!   against the RFC independently of each other).
+pub mod drivers;
+pub mod gen;
+pub mod model;
+pub mod plan;
+pub mod resolver;
+
 use crate::engine::*;
+use crate::gen::{pick, u64_};
+use gen::maybe;
+use crate::{vensure, vfail};
+use arbitrary::Unstructured;
+use model::*;
+use plan::*;
+use resolver::{Kind, Observed, Outcome};
+use std::collections::BTreeMap;
+
+//------------ case -------------------------------------------------------------
+
+pub struct Case {
+    pub init: Init,
+    pub contents: Vec<Content>,
+    pub decoys: Vec<Content>,
+    pub history: Vec<Batch>,
+    pub sim: Sim,
+    pub queries: Vec<gen::Query>,
+    pub with_zonefile: bool,
+    pub labels: Vec<String>,
+}
+
+impl Case {
+    pub fn fin(&self) -> &Content {
+        self.contents.last().unwrap()
+    }
+    fn path_class(&self) -> &'static str {
+        let w = self.history.iter().any(|b| !b.is_updater());
+        let u = self.history.iter().any(|b| b.is_updater());
+        match (w, u) {
+            (true, true) => "mixed",
+            (true, false) => "write",
+            (false, true) => "updater",
+            (false, false) => "none",
+        }
+    }
+    fn render(&self) -> String {
+        let mut s = format!("init={:?} c0: {}\n", self.init, self.contents[0].render());
+        for (i, b) in self.history.iter().enumerate() {
+            s.push_str(&format!(" batch{i}: {}\n", render_batch(b)));
+        }
+        s.push_str(&format!(" final: {}", self.fin().render()));
+        s
+    }
+}
+
+fn render_rec(r: &Rec) -> String {
+    format!("{} {} {} {}", show(&r.owner), r.ttl, tname(r.data.rtype()), r.data.text())
+}
+
+pub fn render_batch(b: &Batch) -> String {
+    match b {
+        Batch::Write { diff, bump, ops, commit } => {
+            let o: Vec<String> = ops
+                .iter()
+                .map(|o| match o {
+                    WOp::UpdateRrset(n, t, r) => format!("update_rrset({} {} ttl={} [{}])", show(n), tname(*t), r.ttl, r.data.iter().map(|d| d.text()).collect::<Vec<_>>().join(", ")),
+                    WOp::RemoveRrset(n, t) => format!("remove_rrset({} {})", show(n), tname(*t)),
+                    WOp::MakeCut(n, _) => format!("make_zone_cut({})", show(n)),
+                    WOp::MakeCname(n, _) => format!("make_cname({})", show(n)),
+                    WOp::MakeRegular(n) => format!("make_regular({})", show(n)),
+                    WOp::RemoveAll(n) => format!("remove_all({})", show(n)),
+                })
+                .collect();
+            format!("write open(diff={diff}) {} {}", o.join("; "), if *commit { format!("commit(bump={bump})") } else { "DROPPED".into() })
+        }
+        Batch::Updater { ops } => {
+            let o: Vec<String> = ops
+                .iter()
+                .map(|o| match o {
+                    UOp::DeleteAll => "DeleteAllRecords".into(),
+                    UOp::Delete(r) => format!("Delete({})", render_rec(r)),
+                    UOp::Add(r) => format!("Add({})", render_rec(r)),
+                    UOp::BeginBatchDelete(r) => format!("BeginBatchDelete({})", render_rec(r)),
+                    UOp::BeginBatchAdd(r) => format!("BeginBatchAdd({})", render_rec(r)),
+                    UOp::Finished(r) => format!("Finished({})", render_rec(r)),
+                })
+                .collect();
+            format!("updater {}{}", o.join("; "), if b.commits() { "" } else { "; DROPPED" })
+        }
+    }
+}
+
+fn bump_serial(c: &mut Content) {
+    let ak = c.apex_key();
+    if let Some(r) = c.get(&ak, SOA).cloned() {
+        if let Some(RData::Soa { mname, rname, serial, refresh, retry, expire, minimum }) = r.data.first().cloned() {
+            let apex = c.apex.clone();
+            c.set(&apex, SOA, Some(RRset::new(r.ttl, vec![RData::Soa { mname, rname, serial: serial.wrapping_add(1), refresh, retry, expire, minimum }])));
+        }
+    }
+}
+
+#[derive(Clone, Copy)]
+enum ViaPlan {
+    Write { diff: bool, bump: bool, style: WStyle },
+    Updater { style: UStyle },
+}
+
+/// Plans the batch that takes `old` to `new`; `commit=false` gives the
+/// aborted variant (no commit / no `Finished`). Returns the batch and the
+/// content the batch really produces (serial bump).
+fn plan_batch(old: &Content, new: &Content, via: ViaPlan, commit: bool, seed: u64) -> (Batch, Content) {
+    let mut mix = Mix(seed);
+    match via {
+        ViaPlan::Write { diff, bump, style } => {
+            let ops = plan_write(old, new, style, &mut mix);
+            let mut result = new.clone();
+            if commit && bump && old.soa().is_some() && new.soa() == old.soa() {
+                bump_serial(&mut result);
+            }
+            (Batch::Write { diff, bump, ops, commit }, result)
+        }
+        ViaPlan::Updater { style } => {
+            let mut ops = plan_updater_body(old, new, style, &mut mix);
+            if commit {
+                if let Some(f) = finished_op(new) {
+                    ops.push(f);
+                }
+            }
+            (Batch::Updater { ops }, new.clone())
+        }
+    }
+}
+
+fn via_plan(u: &mut Unstructured) -> ViaPlan {
+    if maybe(u, 128) {
+        ViaPlan::Write { diff: maybe(u, 128), bump: maybe(u, 50), style: WStyle { replace_all: maybe(u, 16), subtree_remove_all: maybe(u, 64) } }
+    } else {
+        ViaPlan::Updater { style: [UStyle::Plain, UStyle::Batch, UStyle::Plain, UStyle::Batch, UStyle::Replace][pick(u, 5)] }
+    }
+}
+
+struct StepPlan {
+    abort: Option<(ViaPlan, usize)>,
+    via: ViaPlan,
+    full_replace: bool,
+    n_mut: usize,
+    chain: bool,
+    seed: u64,
+}
+
+/// Decodes a case. The cheap structural choices (seeds, initial load, number
+/// of steps, how each step is realised) are read first, then the initial
+/// content, then the mutations of each step, so that a short input still
+/// gives a complete (small) case.
+pub fn decode(u: &mut Unstructured, restricted: bool, with_history: bool) -> Case {
+    // The size class is part of the case (not of the tier), so that a case
+    // file decodes the same way in every tier and under --replay.
+    let thorough = crate::gen::byte(u) >= 200;
+    let cfg = gen::Cfg::new(thorough);
+    let mut qmix = Mix(u64_(u) | 1);
+    let seed0 = if maybe(u, 128) { u64_(u) | 1 } else { 0 };
+    let apex = gen::apex(u);
+    let mut init = if with_history { [Init::Builder, Init::Zonefile, Init::EmptyUpdater, Init::EmptyWrite, Init::Builder][pick(u, 5)] } else { Init::Builder };
+    let init_via = match init {
+        Init::EmptyUpdater => ViaPlan::Updater { style: if maybe(u, 128) { UStyle::Replace } else { UStyle::Plain } },
+        _ => ViaPlan::Write { diff: maybe(u, 128), bump: false, style: WStyle { replace_all: maybe(u, 40), subtree_remove_all: false } },
+    };
+    let with_zonefile = !with_history || maybe(u, 100);
+    let max_steps = if thorough { 12 } else { 4 };
+    let n_steps = if with_history { 1 + pick(u, max_steps) } else { 0 };
+    let mut plans = vec![];
+    for _ in 0..n_steps {
+        let seed = if seed0 == 0 { 0 } else { (u64_(u) | 1).wrapping_add(seed0) };
+        let abort = if maybe(u, 70) { Some((via_plan(u), 1 + pick(u, 3))) } else { None };
+        plans.push(StepPlan { abort, via: via_plan(u), full_replace: maybe(u, 12), n_mut: 1 + pick(u, 5), chain: maybe(u, 220), seed });
+    }
+
+    let c0 = gen::content(u, &apex, &cfg);
+    let empty = Content::empty(apex.clone());
+    let mut labels: Vec<String> = vec![];
+    let mut sim = Sim::new(&apex);
+    let mut history: Vec<Batch> = vec![];
+    match init {
+        Init::Builder | Init::Zonefile => sim.load_builder(&c0),
+        Init::EmptyUpdater | Init::EmptyWrite => {
+            let (b, _) = plan_batch(&empty, &c0, init_via, true, seed0);
+            let mut s2 = sim.clone();
+            s2.apply_batch(&b);
+            if restricted && !s2.defects(&c0).is_empty() {
+                init = Init::Builder;
+                sim.load_builder(&c0);
+            } else {
+                sim = s2;
+                history.push(b);
+            }
+        }
+    }
+    let mut contents = vec![c0.clone()];
+    let mut decoys = vec![];
+    let mut cur = c0;
+    let mut last_chainable = false;
+    for sp in &plans {
+        let seed = sp.seed;
+        // an aborted batch first?
+        let mut aborted_here = false;
+        if let Some((via, n)) = sp.abort {
+            let mut decoy = cur.clone();
+            for _ in 0..n {
+                gen::mutate(u, &mut decoy, &cfg);
+            }
+            let (mut b, _) = plan_batch(&cur, &decoy, via, false, seed);
+            if let Batch::Updater { ops } = &mut b {
+                // BeginBatchDelete commits what precedes it: keep it only as
+                // the first operation of a batch that is going to be dropped
+                let mut first = true;
+                ops.retain(|o| {
+                    let keep = !matches!(o, UOp::BeginBatchDelete(_)) || first;
+                    first = false;
+                    keep
+                });
+            }
+            let mut s2 = sim.clone();
+            s2.apply_batch(&b);
+            if b.len() > 0 && !(restricted && !s2.defects(&cur).is_empty()) {
+                sim = s2;
+                labels.push(format!("abort:{}", if b.is_updater() { "updater" } else { "write" }));
+                history.push(b);
+                decoys.push(decoy);
+                aborted_here = true;
+            }
+        }
+        let via = sp.via;
+        let mut next = cur.clone();
+        let mut planned: Option<(Batch, Content)> = None;
+        if sp.full_replace {
+            let cand = gen::content(u, &apex, &cfg);
+            let p = plan_batch(&cur, &cand, via, true, seed);
+            let mut s2 = sim.clone();
+            s2.apply_batch(&p.0);
+            if cand != cur && !(restricted && !s2.defects(&p.1).is_empty()) {
+                labels.push("mut:full-replace".into());
+                next = cand;
+                planned = Some(p);
+            }
+        } else {
+            for _ in 0..sp.n_mut {
+                let mut cand = next.clone();
+                let l = gen::mutate(u, &mut cand, &cfg);
+                if cand == next {
+                    continue;
+                }
+                let p = plan_batch(&cur, &cand, via, true, seed);
+                if restricted {
+                    let mut s2 = sim.clone();
+                    s2.apply_batch(&p.0);
+                    if !s2.defects(&p.1).is_empty() {
+                        labels.push("restricted:mutation-skipped".into());
+                        continue;
+                    }
+                }
+                labels.push(format!("mut:{l}"));
+                next = cand;
+                planned = Some(p);
+            }
+        }
+        let Some((mut batch, result)) = planned else { continue };
+        // IXFR with several batches: continue the previous updater
+        let chainable = matches!(via, ViaPlan::Updater { style: UStyle::Batch });
+        if chainable && last_chainable && !aborted_here && sp.chain && matches!(history.last(), Some(Batch::Updater { ops }) if matches!(ops.last(), Some(UOp::Finished(_)))) {
+            // the bookkeeping model has seen the previous batch with its
+            // Finished; applying this batch on top has the same effect as
+            // the merged one
+            sim.apply_batch(&batch);
+            if let (Some(Batch::Updater { ops: prev }), Batch::Updater { ops }) = (history.last_mut(), &mut batch) {
+                prev.pop();
+                prev.append(ops);
+            }
+            labels.push("updater:multi-batch".into());
+            labels.push("via:updater".into());
+            contents.push(result.clone());
+            cur = result;
+            continue;
+        }
+        match &batch {
+            Batch::Write { diff, bump, ops, .. } => {
+                labels.push("via:write".into());
+                if *diff {
+                    labels.push("write:diff".into());
+                }
+                if *bump && result != next {
+                    labels.push("write:bump-applied".into());
+                }
+                if ops.iter().any(|o| matches!(o, WOp::RemoveAll(_))) {
+                    labels.push("write:remove_all".into());
+                }
+                if ops.iter().any(|o| matches!(o, WOp::MakeCut(..))) {
+                    labels.push("write:make_zone_cut".into());
+                }
+                if ops.iter().any(|o| matches!(o, WOp::MakeCname(..))) {
+                    labels.push("write:make_cname".into());
+                }
+                if ops.iter().any(|o| matches!(o, WOp::MakeRegular(..))) {
+                    labels.push("write:make_regular".into());
+                }
+            }
+            Batch::Updater { ops } => {
+                labels.push("via:updater".into());
+                if ops.iter().any(|o| matches!(o, UOp::DeleteAll)) {
+                    labels.push("updater:delete-all".into());
+                }
+                if ops.iter().any(|o| matches!(o, UOp::BeginBatchDelete(_))) {
+                    labels.push("updater:batch".into());
+                }
+                if ops.iter().any(|o| matches!(o, UOp::Delete(_))) {
+                    labels.push("updater:delete".into());
+                }
+            }
+        }
+        sim.apply_batch(&batch);
+        last_chainable = chainable;
+        history.push(batch);
+        contents.push(result.clone());
+        cur = result;
+    }
+    let limit = if thorough { 300 } else { 100 };
+    let seen: Vec<&Content> = contents.iter().chain(decoys.iter()).collect();
+    let queries = gen::queries(&mut qmix, &cur, &seen, limit);
+    if thorough {
+        labels.push("size:large".into());
+    }
+    Case { init, contents, decoys, history, sim, queries, with_zonefile, labels }
+}
+
+//------------ running ------------------------------------------------------------
+
+fn kind_of(e: &Outcome) -> &'static str {
+    match e {
+        Outcome::OutOfZone => "outofzone",
+        Outcome::Undefined => "undefined",
+        Outcome::Answer(x) => x.kind.label(),
+    }
+}
+
+fn features(c: &Content) -> Vec<&'static str> {
+    let mut f = vec![];
+    let ak = c.apex_key();
+    if c.tree_names().iter().any(|k| !c.has_data(k)) {
+        f.push("zone:ent");
+    }
+    if c.nodes.values().any(|n| n.name.first().map(|l| l.as_slice() == b"*").unwrap_or(false)) {
+        f.push("zone:wildcard");
+    }
+    if c.nodes.values().any(|n| n.name.len() > 1 && n.name[1..].iter().any(|l| l.as_slice() == b"*")) {
+        f.push("zone:below-wildcard");
+    }
+    if c.nodes.iter().any(|(k, n)| *k != ak && n.rrsets.contains_key(&NS)) {
+        f.push("zone:cut");
+    }
+    if c.nodes.values().any(|n| n.rrsets.contains_key(&DS)) {
+        f.push("zone:ds");
+    }
+    if c.nodes.values().any(|n| n.rrsets.contains_key(&CNAME)) {
+        f.push("zone:cname");
+    }
+    if c.specials().values().any(|s| matches!(s, Spec::Cut { glue, .. } if !glue.is_empty())) {
+        f.push("zone:glue");
+    }
+    // occluded: data strictly below a cut
+    let cuts: Vec<&Key> = c.nodes.iter().filter(|(k, n)| **k != ak && n.rrsets.contains_key(&NS)).map(|(k, _)| k).collect();
+    if c.nodes.keys().any(|k| cuts.iter().any(|ck| k != *ck && key_is_at_or_below(k, ck))) {
+        f.push("zone:occluded");
+    }
+    f
+}
+
+pub fn run_case(case: &Case, ctx: &mut Ctx, mode: &'static str) -> CaseResult {
+    let fin = case.fin();
+    let apex_len = fin.apex.len();
+    let restricted = mode == "restricted";
+    ctx.class(format!("mode:{mode}"));
+    for f in features(fin) {
+        ctx.class(f);
+    }
+    for l in &case.labels {
+        ctx.class(l.clone());
+    }
+    ctx.sample(|| case.render());
+
+    // reference zone: built directly from the final content
+    let direct = match drivers::build_direct(fin) {
+        Ok(z) => z,
+        Err(e) => vfail!("build:zonebuilder-rejects-valid-content", "{e}\ncontent: {}", fin.render()),
+    };
+    let zonefile = if case.with_zonefile {
+        match drivers::build_zonefile(fin) {
+            Ok(z) => Some(z),
+            Err(e) => vfail!("build:zonefile-path-rejects-valid-content", "{e}"),
+        }
+    } else {
+        None
+    };
+    // the history
+    let hist = if case.history.is_empty() && case.contents.len() == 1 && mode == "direct" {
+        None
+    } else {
+        ctx.class(format!("init:{:?}", case.init));
+        let zone = match case.init {
+            Init::Builder => drivers::build_direct(&case.contents[0]).map_err(|e| Violation::new("build:zonebuilder-rejects-valid-content", e))?,
+            Init::Zonefile => drivers::build_zonefile(&case.contents[0]).map_err(|e| Violation::new("build:zonefile-path-rejects-valid-content", e))?,
+            Init::EmptyUpdater | Init::EmptyWrite => drivers::empty_zone(&fin.apex),
+        };
+        for (i, b) in case.history.iter().enumerate() {
+            if let Err(e) = drivers::exec_batch(&zone, apex_len, b) {
+                let what = if e.contains("pending") { "write-lock-not-released" } else { "operation-fails" };
+                vfail!(format!("hist:{}:{what}", if b.is_updater() { "updater" } else { "write" }), "batch {i}: {e}\n{}", case.render());
+            }
+        }
+        Some(zone)
+    };
+    let defects = case.sim.defects(fin);
+    if !defects.is_empty() {
+        ctx.class("history:leaves-defective-node");
+        for d in defects.values() {
+            ctx.class(format!("defect:{}", d.label()));
+        }
+    }
+    let rd = direct.read();
+    let rz = zonefile.as_ref().map(|z| z.read());
+    let rh = hist.as_ref().map(|z| z.read());
+    let mut non_exact = false;
+    let mut reported: std::collections::BTreeSet<String> = Default::default();
+    for q in &case.queries {
+        let e = resolver::resolve(fin, &q.name, q.qtype);
+        ctx.class(format!("kind:{}", kind_of(&e)));
+        if q.qtype == ANY {
+            ctx.class("qtype:any");
+        }
+        if let Outcome::Answer(x) = &e {
+            if !x.kind.exact_match() {
+                non_exact = true;
+            }
+            if x.kind == Kind::Referral && !x.additional_required.is_empty() {
+                ctx.class("referral:needs-glue");
+            }
+        }
+        let od = drivers::observe(rd.as_ref(), &q.name, q.qtype).map_err(|e| Violation::new("observe:to_message-output-invalid", format!("{e} for {} {}", show(&q.name), tname(q.qtype))))?;
+        if let Err(part) = resolver::check(&e, &od, &q.name) {
+            let v = Violation::new(
+                format!("ref:builder:want-{}:got-{}:{part}", kind_of(&e), od.shape(q.qtype)),
+                format!("query {} {}: reference says {:?}\nZoneBuilder zone answers {}\ncontent: {}", show(&q.name), tname(q.qtype), e, od.render(), fin.render()),
+            );
+            ctx.report(v)?;
+        }
+        let is_any_data = q.qtype == ANY && matches!(&e, Outcome::Answer(x) if matches!(x.answer, resolver::AnswerSpec::SomeOf(_)));
+        let differs = |o: &Observed| -> bool {
+            if is_any_data {
+                resolver::check(&e, o, &q.name).is_err()
+            } else {
+                *o != od
+            }
+        };
+        if let Some(rz) = &rz {
+            let oz = drivers::observe(rz.as_ref(), &q.name, q.qtype).map_err(|e| Violation::new("observe:to_message-output-invalid", e))?;
+            if differs(&oz) {
+                let v = Violation::new(
+                    format!("hist:zonefile-vs-builder:want-{}:got-{}", kind_of(&e), oz.shape(q.qtype)),
+                    format!("query {} {}: zone loaded from zone file answers {}\nZoneBuilder zone answers {}\nzone file:\n{}", show(&q.name), tname(q.qtype), oz.render(), od.render(), fin.zonefile_text()),
+                );
+                ctx.report(v)?;
+            }
+        }
+        if let Some(rh) = &rh {
+            let oh = drivers::observe(rh.as_ref(), &q.name, q.qtype).map_err(|e| Violation::new("observe:to_message-output-invalid", e))?;
+            if q.qtype == ANY && !defects.is_empty() && defect_on_path(&defects, fin, &q.name).is_some() {
+                // which RRset an ANY query gets depends on the hash-map
+                // order inside the node; at a node with a known defect the
+                // outcome (and so the signature) would vary from run to run
+                ctx.class("any-at-defective-node-skipped");
+            } else if differs(&oh) {
+                let cause = defect_on_path(&defects, fin, &q.name);
+                let detail = format!(
+                    "query {} {}: zone reached through the history answers {}\nzone built directly from the same records answers {}\nreference: {}\ndefective node on the lookup path: {}\n{}",
+                    show(&q.name),
+                    tname(q.qtype),
+                    oh.render(),
+                    od.render(),
+                    kind_of(&e),
+                    cause.as_ref().map(|(k, d)| format!("{} ({})", show_key(k), d.label())).unwrap_or_else(|| "none".into()),
+                    case.render()
+                );
+                let sig = if restricted {
+                    format!("hist-restricted:{}:want-{}:got-{}", case.path_class(), kind_of(&e), oh.shape(q.qtype))
+                } else {
+                    match &cause {
+                        Some((_, d)) => format!("hist:{}:got-{}:want-{}:{}", d.label(), oh.shape(q.qtype), resolver::expected_shape(&e), case.path_class()),
+                        None => format!("hist:unexplained:{}:want-{}:got-{}", case.path_class(), kind_of(&e), oh.shape(q.qtype)),
+                    }
+                };
+                // one report per signature and case (excluded_known then
+                // counts cases, not queries)
+                if reported.insert(sig.clone()) {
+                    ctx.report(Violation::new(sig, detail))?;
+                }
+            } else if !defects.is_empty() && defect_on_path(&defects, fin, &q.name).is_some() {
+                ctx.class("defect-on-path-but-answer-right");
+            }
+        }
+    }
+    let committed = case.history.iter().filter(|b| b.commits()).count();
+    if committed > 0 {
+        ctx.class(format!("batches:{}", committed.min(5)));
+    }
+    let fs = features(fin);
+    let structured = fs.iter().any(|f| matches!(*f, "zone:ent" | "zone:wildcard" | "zone:cut" | "zone:cname"));
+    let nontrivial = match mode {
+        "direct" => structured && non_exact,
+        _ => structured && non_exact && committed >= 1 && case.contents.len() > 1,
+    };
+    if nontrivial {
+        ctx.nontrivial(&(mode, &case.contents, case.history.len(), &case.queries));
+    }
+    Ok(())
+}
+
+fn run_direct(data: &[u8], ctx: &mut Ctx) -> CaseResult {
+    let mut u = Unstructured::new(data);
+    let case = decode(&mut u, false, false);
+    run_case(&case, ctx, "direct")
+}
+
+fn run_restricted(data: &[u8], ctx: &mut Ctx) -> CaseResult {
+    let mut u = Unstructured::new(data);
+    let case = decode(&mut u, true, true);
+    vensure!(case.sim.defects(case.fin()).is_empty(), "harness:restricted-generator-left-defect", "restricted mode produced a history with a defective node (generator bug)");
+    run_case(&case, ctx, "restricted")
+}
+
+fn run_unrestricted(data: &[u8], ctx: &mut Ctx) -> CaseResult {
+    let mut u = Unstructured::new(data);
+    let case = decode(&mut u, false, true);
+    run_case(&case, ctx, "unrestricted")
+}
+
+//------------ fixed RFC 4592 example ------------------------------------------------
+
+fn rfc4592_zone() -> Content {
+    let nm = gen::nm;
+    let txt = |s: &str| RData::Txt(vec![s.as_bytes().to_vec()]);
+    let mut c = Content::empty(nm("example."));
+    let soa = RData::Soa { mname: nm("ns.example.com."), rname: nm("hostmaster.example."), serial: 1, refresh: 2, retry: 3, expire: 4, minimum: 300 };
+    c.set(&nm("example."), SOA, Some(RRset::new(3600, vec![soa])));
+    let ns = RRset::new(3600, vec![RData::Ns(nm("ns.example.com.")), RData::Ns(nm("ns.example.net."))]);
+    c.set(&nm("example."), NS, Some(ns.clone()));
+    c.set(&nm("*.example."), TXT, Some(RRset::new(3600, vec![txt("this is a wildcard")])));
+    c.set(&nm("*.example."), MX, Some(RRset::new(3600, vec![RData::Mx(10, nm("host1.example."))])));
+    c.set(&nm("sub.*.example."), TXT, Some(RRset::new(3600, vec![txt("this is not a wildcard")])));
+    c.set(&nm("host1.example."), A, Some(RRset::new(3600, vec![RData::A([192, 0, 2, 1])])));
+    c.set(&nm("_ssh._tcp.host1.example."), TXT, Some(RRset::new(3600, vec![txt("srv")])));
+    c.set(&nm("_ssh._tcp.host2.example."), TXT, Some(RRset::new(3600, vec![txt("srv")])));
+    c.set(&nm("subdel.example."), NS, Some(ns));
+    c
+}
+
+/// (qname, qtype, expected shape, expected number of answer records) taken
+/// from the text of RFC 4592 section 2.2.1 and 2.2.2.
+const RFC4592: &[(&str, u16, &str, usize)] = &[
+    ("host3.example.", MX, "data", 1),
+    ("host3.example.", A, "nodata", 0),
+    ("foo.bar.example.", TXT, "data", 1),
+    ("host1.example.", MX, "nodata", 0),
+    ("sub.*.example.", MX, "nodata", 0),
+    ("_telnet._tcp.host1.example.", TXT, "nxdomain", 0),
+    ("host.subdel.example.", A, "referral", 0),
+    ("ghost.*.example.", MX, "nxdomain", 0),
+    ("_tcp.host1.example.", A, "nodata", 0),
+    ("host2.example.", A, "nodata", 0),
+    ("*.example.", TXT, "data", 1),
+    ("example.", NS, "data", 2),
+];
+
+fn rfc4592_count(_t: bool) -> u64 {
+    (RFC4592.len() * 4) as u64
+}
+
+fn run_rfc4592(data: &[u8], ctx: &mut Ctx) -> CaseResult {
+    let i = u64::from_le_bytes(data[..8].try_into().unwrap_or([0; 8])) as usize;
+    let (q, t, shape, n) = RFC4592[i % RFC4592.len()];
+    let path = i / RFC4592.len();
+    let c = rfc4592_zone();
+    let zone = match path % 4 {
+        0 => drivers::build_direct(&c),
+        1 => drivers::build_zonefile(&c),
+        2 => {
+            let z = drivers::empty_zone(&c.apex);
+            let (b, _) = plan_batch(&Content::empty(c.apex.clone()), &c, ViaPlan::Write { diff: false, bump: false, style: WStyle { replace_all: false, subtree_remove_all: false } }, true, 0);
+            drivers::exec_batch(&z, 1, &b).map(|_| z)
+        }
+        _ => {
+            let z = drivers::empty_zone(&c.apex);
+            let (b, _) = plan_batch(&Content::empty(c.apex.clone()), &c, ViaPlan::Updater { style: UStyle::Replace }, true, 0);
+            drivers::exec_batch(&z, 1, &b).map(|_| z)
+        }
+    }
+    .map_err(|e| Violation::new("rfc4592:build", e))?;
+    let pname = ["builder", "zonefile", "write", "updater"][path % 4];
+    ctx.class(format!("rfc4592:{pname}"));
+    let qn = gen::nm(q);
+    // the reference resolver must agree with the RFC text
+    let e = resolver::resolve(&c, &qn, t);
+    vensure!(resolver::expected_shape(&e) == shape, "harness:reference-resolver-disagrees-with-rfc4592", "{q} {}: resolver {:?}, RFC says {shape}", tname(t), e);
+    let r = zone.read();
+    let o = drivers::observe(r.as_ref(), &qn, t).map_err(|e| Violation::new("observe:to_message-output-invalid", e))?;
+    let got_n = match &o {
+        Observed::Answer { answer, .. } => answer.len(),
+        _ => 0,
+    };
+    if o.shape(t) != shape || got_n != n {
+        // histories through the write paths hit the known defects; name them
+        let sig = if path % 4 >= 2 {
+            let mut sim = Sim::new(&c.apex);
+            let via = if path % 4 == 2 { ViaPlan::Write { diff: false, bump: false, style: WStyle { replace_all: false, subtree_remove_all: false } } } else { ViaPlan::Updater { style: UStyle::Replace } };
+            let (b, _) = plan_batch(&Content::empty(c.apex.clone()), &c, via, true, 0);
+            sim.apply_batch(&b);
+            match defect_on_path(&sim.defects(&c), &c, &qn) {
+                Some((_, d)) => format!("hist:{}:got-{}:want-{shape}:{}", d.label(), o.shape(t), pname),
+                None => format!("rfc4592:{pname}:want-{shape}:got-{}", o.shape(t)),
+            }
+        } else {
+            format!("rfc4592:{pname}:want-{shape}:got-{}", o.shape(t))
+        };
+        ctx.report(Violation::new(sig, format!("RFC 4592 2.2.1 example zone via {pname}: {q} {} must be {shape} with {n} answer records, got {}", tname(t), o.render())))?;
+    }
+    ctx.nontrivial(&i);
+    Ok(())
+}
+
+//------------ registration ------------------------------------------------------------
+
+fn health(c: &BTreeMap<String, u64>, _thorough: bool) -> Result<(), String> {
+    let need = [
+        "kind:data",
+        "kind:cname",
+        "kind:nodata",
+        "kind:ent-nodata",
+        "kind:nxdomain",
+        "kind:referral",
+        "kind:ds-at-cut",
+        "kind:ds-at-cut-nodata",
+        "kind:wild-data",
+        "kind:wild-cname",
+        "kind:wild-nodata",
+        "kind:outofzone",
+        "qtype:any",
+        "referral:needs-glue",
+        "zone:ent",
+        "zone:wildcard",
+        "zone:below-wildcard",
+        "zone:cut",
+        "zone:ds",
+        "zone:glue",
+        "zone:occluded",
+        "zone:cname",
+        "mode:direct",
+        "mode:restricted",
+        "mode:unrestricted",
+        "init:Builder",
+        "init:Zonefile",
+        "init:EmptyUpdater",
+        "init:EmptyWrite",
+        "via:write",
+        "via:updater",
+        "abort:write",
+        "abort:updater",
+        "updater:delete-all",
+        "updater:batch",
+        "updater:delete",
+        "write:remove_all",
+        "write:make_zone_cut",
+        "write:make_cname",
+        "write:make_regular",
+        "mut:delete-name",
+        "mut:delete-beside-wildcard-or-below-ent",
+        "mut:make-ent",
+        "mut:full-replace",
+        "updater:multi-batch",
+        "write:bump-applied",
+        "size:large",
+    ];
+    for k in need {
+        if c.get(k).copied().unwrap_or(0) < 200 {
+            return Err(format!("class {k} starved ({})", c.get(k).copied().unwrap_or(0)));
+        }
+    }
+    Ok(())
+}
 
 pub fn prop() -> Option<Prop> {
-    None
+    Some(Prop {
+        id: "C08",
+        rule: "a case is a generated zone content (name tree with ENTs, wildcards, CNAMEs, delegations) plus, in the history sub-checks, a generated update history ending in that content, plus a query set; non-trivial = the final content has at least one of {empty non-terminal, wildcard, delegation, CNAME} and at least one query lands on a non-exact-match branch (ENT, wildcard, referral, DS at cut, NXDOMAIN, out of zone) and, for history sub-checks, at least one committed incremental batch changed the content; distinct by (contents, history length, queries)",
+        assumptions: &[
+            "zone contents are what every loader accepts: CNAME alone at its name, only NS/DS/A/AAAA at a delegation, DS only with NS, no NS/DS at a wildcard owner, class IN, no DNAME",
+            "callers of the write interface classify records like the zone-file loader (make_zone_cut with NS+DS+glue, make_cname, plain RRsets otherwise); ZoneUpdater is fed record-level adds/deletes that are valid for the current content (delete only what is there, add only what is not)",
+            "QTYPE=ANY: any non-empty union of complete RRsets at the name is accepted (RFC 8482); additional section: required glue must be present, only address records of the cut's NS targets may appear; SOA TTL of negative answers may be the SOA's own TTL or the RFC 2308 minimum",
+            "reference: props/c08/resolver.rs (RFC 1034 4.3.2 + RFC 4592), cross-checked against the RFC 4592 2.2.1 example by unit test and by the rfc4592 sub-check",
+        ],
+        subchecks: vec![
+            SubCheck::sweep("rfc4592", run_rfc4592, rfc4592_count),
+            SubCheck::new("direct", run_direct, 30_000, 300_000, 1200),
+            SubCheck::new("restricted", run_restricted, 50_000, 600_000, 2500),
+            SubCheck::new("unrestricted", run_unrestricted, 50_000, 600_000, 2500),
+        ],
+        health: Some(health),
+        extra: None,
+    })
 }
